@@ -27,14 +27,22 @@ GUARDS = [
     ("dense_gumbel_hard_temp", "dense", "LogicDense", "forward_python",
      "elif self.forward_sampling == 'gumbel_hard':\n            self._check_gumbel_temperature()"),
     ("dense_gumbel_check", "dense", "LogicDense", "_check_gumbel_temperature",
-     "if not self.temperature > 0:\n        raise ValueError('Temperature must be positive')"),
+     "if not 0 < self.temperature < math.inf:\n        raise ValueError('Temperature must be positive and finite')"),
     ("dense_walsh_sampling", "dense", "LogicDense", "forward_python",
      "elif self.forward_sampling == 'gumbel_hard':\n                x = gumbel_sigmoid(x, tau=self.temperature, hard=True)\n            else:\n                raise ValueError(self.forward_sampling)"),
     ("compiled_forward_sample_size", "compiled", "CompiledLogicNet", "_forward_with_groupsum",
      "if x.ndim < 2 or int(np.prod(x.shape[1:])) != self._get_input_size():\n    raise ValueError"),
     ("unique_half", "functional", None, "get_unique_connections", "assert out_dim * 2 >= in_dim"),
     ("unique_max", "functional", None, "get_unique_connections", "n_max = int(in_dim * (in_dim - 1) / 2)\n    assert out_dim <= n_max"),
-    ("gumbel_sigmoid_tau", "functional", None, "gumbel_sigmoid", "if not tau > 0:\n        raise ValueError('Temperature must be positive')"),
+    ("gumbel_sigmoid_tau", "functional", None, "gumbel_sigmoid", "if not 0 < tau < math.inf:\n        raise ValueError('Temperature must be positive and finite')"),
+    ("sampling_tau", "functional", None, "_check_temperature", "if not 0 < tau < math.inf:\n        raise ValueError('Temperature must be positive and finite')"),
+    ("soft_raw_tau", "functional", None, "soft_raw", "_check_temperature(tau)", "top"),
+    ("hard_raw_tau", "functional", None, "hard_raw", "_check_temperature(tau)", "top"),
+    ("soft_walsh_tau", "functional", None, "soft_walsh", "_check_temperature(tau)", "top"),
+    ("hard_walsh_tau", "functional", None, "hard_walsh", "_check_temperature(tau)", "top"),
+    ("compiled_groupsum_offset", "compiled", "CompiledLogicNet", "_parse_model",
+     "if bool(torch.as_tensor(layer.beta).ne(0).any()):\n                raise ValueError"),
+    ("compiled_codegen_needs_model", "compiled", "CompiledLogicNet", "get_c_code", "if self.model is None:\n        raise ValueError", "top-if"),
     ("conv2_param", "conv", "LogicConv2d", "__init__", "if parametrization not in ('raw', 'walsh'):\n        raise ValueError"),
     ("conv2_weight_init", "conv", "LogicConv2d", "__init__", "if weight_init not in ('residual', 'random'):\n        raise ValueError"),
     ("conv2_sampling", "conv", "LogicConv2d", "__init__",
@@ -52,7 +60,7 @@ GUARDS = [
     ("compiled_shape_volume", "compiled", "CompiledLogicNet", "_check_batch_shape",
      "ok = x.ndim >= 2 and int(np.prod(x.shape[1:])) == self._get_input_size()"),
     ("compiled_shape_layout", "compiled", "CompiledLogicNet", "_check_batch_shape",
-     "if ok and len(declared) > 1:\n        ok = x.ndim == 2 or tuple(x.shape[1:]) == declared\n    elif ok and self.layer_order and (self.layer_order[0][0] != 'flatten'):\n        ok = x.ndim == 2"),
+     "if ok and len(declared) > 1:\n        ok = x.ndim == 2 or tuple(x.shape[1:]) == declared\n    elif ok and (not (self.layer_order and self.layer_order[0][0] == 'flatten')):\n        ok = x.ndim == 2"),
     ("compiled_shape_raises", "compiled", "CompiledLogicNet", "_check_batch_shape", "if not ok:\n        raise ValueError"),
     ("conv2_stride", "conv", "LogicConv2d", "__init__", "assert stride <= receptive_field_size"),
     ("conv2_connections", "conv", "LogicConv2d", "__init__", "else:\n        raise ValueError(f'Unknown connections type: {connections}')"),
@@ -62,7 +70,7 @@ GUARDS = [
     ("conv2_forward_shape", "conv", "LogicConv2d", "forward",
      "assert x.ndim == 4 and tuple(x.shape[1:]) == (self.channels, *self.in_dim)"),
     ("conv2_gumbel_temp", "conv", "LogicConv2d", "_raw_level_weights",
-     "if self.forward_sampling in ('gumbel_soft', 'gumbel_hard') and (not self.temperature > 0):\n        raise ValueError('Temperature must be positive')"),
+     "if self.forward_sampling in ('gumbel_soft', 'gumbel_hard') and (not 0 < self.temperature < math.inf):\n        raise ValueError('Temperature must be positive and finite')"),
     ("conv3_stride", "conv", "LogicConv3d", "__init__",
      "assert stride <= self.receptive_field_size[0] and stride <= self.receptive_field_size[1] and (stride <= self.receptive_field_size[2])"),
     ("conv3_connections", "conv", "LogicConv3d", "__init__", "else:\n        raise ValueError(f'Unknown connections type: {connections}')"),
